@@ -13,7 +13,7 @@ static void run_case(const std::string& kase, const std::vector<Setting>& cli, c
     int rc = parse(a, cli, parent, err);
     if (rc != 1) { R.violate("C13/original-parse-failed", kase, err); return; }
     auto g1 = getters(a);
-    const std::string saved = DIR + "/saved.cfg";
+    const std::string saved = DIR + "/results/saved.cfg";   // the .cfg is written next to the results, which need not be where the parent config and its input files are
     a.save(saved);
     ProgramOptions b; rc = parse(b, {}, saved, err);
     if (rc != 1) { R.violate("C13/saved-cfg-does-not-parse", kase, err); return; }
@@ -37,6 +37,9 @@ int main(int argc, char** argv) {
     R.rule = "one evaluation = parse -> save -> parse round trip on the real ProgramOptions; distinct = FNV of case + all getters of the reread object; trivial = default invocation";
     R.sample_every = 500;
     DIR = tmpdir(R, "c13");
+    // the input files named by the option values exist - next to the parent config, not in the working directory
+    mkdir((DIR + "/results").c_str(), 0755); mkdir((DIR + "/dir").c_str(), 0755); mkdir((DIR + "/p").c_str(), 0755);
+    for (const char* fn : {"start.h5", "other.txt", "z.dat", "dir/other.dat", "t.txt", "p/q=1 b.txt"}) { std::ofstream f(DIR + "/" + fn); f << "0 1 0\n"; }
     const bool T = R.thorough();
     { std::string k = "defaults"; if (R.mine(k)) run_case(k, {}, {}); }
     // singles
